@@ -1208,6 +1208,11 @@ class Machine:
             return SPEC_FUNCS[f.name[5:]](self, node)
         if getattr(f, "_pyvc_spec", False):
             return f(self, node)
+        if (isinstance(f, Builtin) and f.name == "sum" and len(node.args) == 1 and not node.keywords and isinstance(node.args[0], ast.GeneratorExp)
+                and not self.spec_mode and getattr(self.c, "sums", None)):
+            n_ = self.comp_ord.get(id(node.args[0]))
+            if n_ in self.c.sums:
+                return self.sum_fold(node.args[0], self.c.sums[n_], n_)
         args = []
         consuming = isinstance(f, Builtin) and f.name in CONSUMERS
         for a in node.args:
@@ -1440,7 +1445,10 @@ class Machine:
 
     def e_ListComp(self, node):
         out, nout, elem = self.run_comp(node, lazy=False)
-        return self.new_list(elem, arr=out, length=nout)
+        r = self.new_list(elem, arr=out, length=nout)
+        if elem is not None and isinstance(elem.sort, z3.ArraySortRef) and getattr(self, "_last_outlen", None) is not None:
+            self.heap[(r.id, "rowlen")] = self._last_outlen
+        return r
 
     # ---- comprehensions / generator expressions ----------------------------------
     def snapshot(self):
@@ -1482,6 +1490,47 @@ class Machine:
         self._synth[key] = (forn, itname, n, g)
         return self._synth[key]
 
+    def sum_fold(self, node, partial, n):
+        """sum(<elt> for v in xrange(count)) = left fold with + from 0 (library semantics of sum), proved by induction on the number of
+        terms against the contract's partial-sum specification `partial` (an expression in `nterms`, the number of terms added so far):
+        base partial(0) == 0, step partial(j) + elt(j) == partial(j+1) for an arbitrary 0 <= j < count; the value is partial(max(count, 0))"""
+        if len(node.generators) != 1 or node.generators[0].ifs or not isinstance(node.generators[0].target, ast.Name):
+            raise Unsupported("sum() over this generator expression")
+        g = node.generators[0]
+        if not (isinstance(g.iter, ast.Call) and isinstance(g.iter.func, ast.Name) and g.iter.func.id in ("xrange", "range")
+                and g.iter.func.id not in self.locals and not g.iter.keywords and len(g.iter.args) in (1, 2)):
+            raise Unsupported("sum() over something that is not xrange(n) / xrange(a, b)")
+        rargs = [to_z3num(self.eval(a)) for a in g.iter.args]
+        lo, hi = (z3.IntVal(0), rargs[0]) if len(rargs) == 1 else (rargs[0], rargs[1])
+        cnt = z3.simplify(z3.If(hi - lo > 0, hi - lo, 0))
+        self.covered.add("sum%s" % n)
+        term_text = None
+        if isinstance(partial, dict):
+            partial, term_text = partial["partial"], partial.get("term")
+        P = lambda j: to_real(self.spec_value(partial, {"nterms": j}))
+        self.oblige("sum%s/base/partial(0)==0" % n, P(z3.IntVal(0)) == 0)
+        j = self.fresh("sum_j", INT)
+        saved_pc, saved_locals = list(self.pc), self.locals
+        self.assume(z3.And(j >= 0, j < cnt))
+        self.locals = dict(saved_locals)
+        self.locals[g.target.id] = z3.simplify(lo + j)
+        try:
+            try:
+                term = self.eval(node.elt)
+            except PyRaise as e:
+                self.oblige("sum%s/step/raises/%s/never" % (n, e.exc), False, note="exception %s while computing a term of the sum at line %d" % (e.exc, self.curline))
+                raise PathEnd()
+            if term_text is not None:
+                # the partial sum is DEFINED by partial(j+1) == partial(j) + term(j): the obligation is that the code's j-th term is the
+                # specification's j-th term
+                self.oblige("sum%s/step/S:term(j)-is-the-specified-term" % n, to_real(term) == to_real(self.spec_value(term_text, {"nterms": j})))
+            else:
+                self.oblige("sum%s/step/partial(j)+term==partial(j+1)" % n, P(j) + to_real(term) == P(j + 1))
+        finally:
+            self.locals = saved_locals
+            self.pc = saved_pc
+        return P(cnt)
+
     def run_comp(self, node, lazy):
         """lazy: verify the generator expression as a generator of its own (its
         obligations are emitted on this path), roll the state back and return a
@@ -1513,6 +1562,8 @@ class Machine:
         self.ghost = {k: v for k, v in outer_ghost.items() if k in self.c.ghost_const}
         self.ghost["nout"] = z3.IntVal(0)
         self.ghost["out"] = self.fresh("gout%s" % n, z3.ArraySort(INT, cspec.elem.sort))
+        if isinstance(cspec.elem.sort, z3.ArraySortRef):
+            self.ghost["outlen"] = self.fresh("goutlen%s" % n, z3.ArraySort(INT, INT))
         for text in cspec.ghost_init:
             self.ghost_exec(text)
         was_gen = self.is_generator
@@ -1541,6 +1592,7 @@ class Machine:
                 if cond is not None:
                     self.oblige("g%s/exit/no-%s" % (n, exc), z3.Not(to_bool(self.spec(cond))))
             out, nout = self.ghost["out"], self.ghost["nout"]
+            self._last_outlen = self.ghost.get("outlen")
         finally:
             self.is_generator = was_gen
         self.ghost = outer_ghost
@@ -1941,7 +1993,12 @@ class Machine:
             self.assume(h)
         for label, text in spec.post:
             self.oblige("yield%s/%s" % (k, label), self.spec(text, extra))
-        if "out" in self.ghost and is_z3(v) or ("out" in self.ghost and is_num(v)):
+        if "out" in self.ghost and isinstance(v, Ref) and v.kind == "list" and isinstance(self.ghost["out"].sort().range(), z3.ArraySortRef):
+            # a comprehension whose elements are lists (rows): the row's element array and its length are recorded
+            self.ghost["out"] = z3.Store(self.ghost["out"], self.ghost["nout"], self.heap[(v.id, "arr")])
+            if "outlen" in self.ghost:
+                self.ghost["outlen"] = z3.Store(self.ghost["outlen"], self.ghost["nout"], self.heap[(v.id, "len")])
+        elif "out" in self.ghost and is_z3(v) or ("out" in self.ghost and is_num(v)):
             out = self.ghost["out"]
             zv = v if is_z3(v) else to_z3num(v)
             if out.sort().range() == REAL:
@@ -2253,6 +2310,12 @@ def _sf_store(m, node):
     return z3.Store(a, i if is_z3(i) else to_z3num(i), v if is_z3(v) else to_z3num(v))
 
 
+def _sf_rowlen(m, node):
+    """rowlen(list_of_lists, j): the length of row j"""
+    v = m.eval(node.args[0])
+    return m.heap[(v.id, "rowlen")][to_z3num(m.eval(node.args[1]))]
+
+
 def _sf_gen_label(m, node):
     v = m.eval(node.args[0])
     if isinstance(v, Ref) and v.kind == "gen":
@@ -2345,7 +2408,7 @@ def _sf_is_iterator(m, node):
 SPEC_FUNCS = {
     "is_iterator": _sf_is_iterator, "late_bound": _sf_late, "count": _sf_count, "data_of_iters": _sf_iters_of,
     "RINT": _sf_rint, "TRUNC": _sf_trunc, "call_of": _sf_call_of, "call_arg": _sf_call_arg,
-    "FDIV": _sf_fdiv, "is_stream": _sf_is_stream, "data_of": _sf_data_of, "iter_of": _sf_iter_of, "store": _sf_store, "fq": _sf_fq, "is_filter_view": _sf_is_filter, "tee_child": _sf_tee_child, "gen_label": _sf_gen_label, "src_of": _sf_src_of,
+    "FDIV": _sf_fdiv, "is_stream": _sf_is_stream, "data_of": _sf_data_of, "iter_of": _sf_iter_of, "rowlen": _sf_rowlen, "store": _sf_store, "fq": _sf_fq, "is_filter_view": _sf_is_filter, "tee_child": _sf_tee_child, "gen_label": _sf_gen_label, "src_of": _sf_src_of,
     "same": _sf_same, "captured": _sf_captured, "is_closure": _sf_is_closure,
     "forall": _sf_quant("forall"), "exists": _sf_quant("exists"), "implies": _sf_implies, "ite": _sf_ite,
     "reads": _sf_reads, "pos": _sf_reads, "length": _iter_field("len"), "finite": _sf_finite,
@@ -2635,7 +2698,7 @@ def _b_sum(m, args, kw):
 
 
 BUILTINS = {
-    "super": _b_super, "hasattr": _b_hasattr, "str": _b_str, "isinf": _b_isinf, "divmod": _b_divmod, "all": _b_all, "any": _b_any, "tuple": _b_tuple, "random.uniform": _b_uniform,
+    "sum": _b_sum, "super": _b_super, "hasattr": _b_hasattr, "str": _b_str, "isinf": _b_isinf, "divmod": _b_divmod, "all": _b_all, "any": _b_any, "tuple": _b_tuple, "random.uniform": _b_uniform,
     "operator.ge": _b_op("ge"), "operator.gt": _b_op("gt"), "operator.le": _b_op("le"), "operator.lt": _b_op("lt"),
     "operator.add": _b_op("add"), "operator.sub": _b_op("sub"), "operator.mul": _b_op("mul"),
     "next": _b_next, "iter": _b_iter, "xrange": _b_xrange, "range": _b_xrange, "len": _b_len, "int": _b_int,
